@@ -17,8 +17,7 @@ from vf import framework as fw
 HEADER = """From Coercion.Base Require Import Plan.
 From Coercion.Query Require Import Rows Query Spec QueryCheck."""
 
-HINT = {("sqlite", "exists", "value"): "S1-like: Exists answers wrongly (original defect S1: the statement compared the literal 'id', always false)",
-        ("sqlite", "search", "stream-error"): "S2-like: the Search statement fails (original defect S2: IN (?,?)s syntax error for ByIDs / ByGroupIDs)",
+HINT = {        ("sqlite", "search", "stream-error"): "S2-like: the Search statement fails (original defect S2: IN (?,?)s syntax error for ByIDs / ByGroupIDs)",
         ("sqlite", "search", "wrong-items"): "Search returns the wrong plans, or the right plans with wrong contents (original defect S2 was of this kind: several statuses joined with AND gave an empty result)",
         ("sqlite", "list", "state-time-1754"): "S8-like: List returns 1754-08-30T22:43:41.128654848Z (the wrapped UnixNano of the zero time) as State.Start/End of a plan that has none",
         ("sqlite", "search", "state-time-1754"): "S8-like: Search returns 1754-08-30T22:43:41.128654848Z (the wrapped UnixNano of the zero time) as State.Start/End of a plan that has none",
@@ -27,6 +26,13 @@ HINT = {("sqlite", "exists", "value"): "S1-like: Exists answers wrongly (origina
         ("crash", None, "value"): "a background goroutine of the code under test killed the process (original defect S3: List used the connection after returning it to the pool)",
         ("cosmos", "update", "value"): "S7-like: the search item written by UpdatePlan differs from the plan (original defect S7: swarm dropped, the plan vanishes from every query)",
         ("cosmos", "create", "value"): "the search item written by Create differs from the plan",
+        ("sqlite", "list-ctx", "never-closed"): "S9-like: List under a done context returned a channel that is never closed (the pool dropped the streaming job)",
+        ("sqlite", "search-ctx", "never-closed"): "S9-like: Search under a done context returned a channel that is never closed (the pool dropped the streaming job)",
+        ("cosmos", "list-ctx", "never-closed"): "S9-like: List under a done context returned a channel that is never closed",
+        ("cosmos", "search-ctx", "never-closed"): "S9-like: Search under a done context returned a channel that is never closed",
+        ("sqlite", "list", "panic-or-hang"): "the store is wedged: a call with a live context does not return (S9: the dropped job kept the only connection)",
+        ("sqlite", "search", "panic-or-hang"): "the store is wedged: a call with a live context does not return (S9: the dropped job kept the only connection)",
+        ("sqlite", "exists", "value"): "Exists answers wrongly or does not return (S1: always false; S9: store wedged after a dropped streaming job)",
         ("cosmos", "exists-fault", "value"): "Exists answered without an error although the point read failed with something other than 404",
         ("cosmos", "list-text", "value"): "the query cosmosdb List sends, evaluated over the search items actually written, is not the first <limit> plans newest first",
         ("cosmos", "query-text", "value"): "the query cosmosdb emits, evaluated over the search items actually written, does not select the matching plans"}
@@ -37,7 +43,9 @@ WHAT = {1: "result (nil / error) of a mutation", 2: "cosmosdb search item writte
         8: "text/parameters cosmosdb List sends (AST differs from the model's)",
         9: "the query cosmosdb List sends, evaluated over the search items actually written",
         10: "cosmosdb Exists while point reads fail: 'false' (or 'true') without the service having said 404 (or returned the item)",
-        11: "cosmosdb Search/List while queries fail: the stream must deliver one error and be closed"}
+        11: "cosmosdb Search/List while queries fail: the stream must deliver one error and be closed",
+        12: "Search under a cancelled / expired context: neither an error nor a stream closed within the bound carrying a newest-first prefix of the answer",
+        13: "List under a cancelled / expired context: neither an error nor a stream closed within the bound carrying a newest-first prefix of the answer"}
 
 
 def triples(r):
@@ -120,7 +128,7 @@ def run(ctx):
     steps = sum(c["dist"]["steps"] for c in live)
     obs_steps = sum(v for c in live for k, v in (c["dist"].get("hist") or {}).items()
                     if k in ("step:exists", "step:search", "step:list", "step:query-text", "step:list-text",
-                             "step:exists-fault", "step:search-fault", "step:list-fault"))
+                             "step:exists-fault", "step:search-fault", "step:list-fault", "step:search-ctx", "step:list-ctx"))
     ctx.evidence(dict(
         evaluations=obs_steps,
         distinct_nontrivial=fw.distinct_nontrivial(live),
@@ -128,7 +136,7 @@ def run(ctx):
              "on a fresh vault with 0-12 plans (thorough: up to 30), interleaved with Exists probes, a partial battery in the middle and a full "
              "battery at the end (Exists of every id incl. deleted / never created / nil; all 7 filter-kind combinations single- and multi-valued "
              "incl. unknown ids, absent groups, repeated values, status 150; Running; all statuses; all ids; the empty filter; List limits "
-             "-1,0,1,n-1,n,n+1; cosmosdb: Exists of a stored and an unknown id while every point read is answered 404/409/410/412/429/500/503 or fails without a status, Search and List while every query fails; names and descriptions incl. numeric-looking strings; the cosmosdb fake hands query results out in pages of 0 (= one page), 1, 2 or 3 items, in half of the paged histories with an empty page before every later page; one ByIDs list of 501 / 600 / 1100 entries per history, never-created ids with the live ids planted around the multiples of 500 oldest first, alone or with group / status filters). evaluations = observations judged (Exists + Search + List + parsed cosmos Search and List query texts); distinct = distinct "
+             "-1,0,1,n-1,n,n+1; cosmosdb: Exists of a stored and an unknown id while every point read is answered 404/409/410/412/429/500/503 or fails without a status, Search and List while every query fails; names and descriptions incl. numeric-looking strings; Search and List under contexts cancelled before the call, cancelled 0-200 us after it starts, or already expired (12 probes per history, then live-context Exists / Read / List / Search on the same store); the cosmosdb fake hands query results out in pages of 0 (= one page), 1, 2 or 3 items, in half of the paged histories with an empty page before every later page; one ByIDs list of 501 / 600 / 1100 entries per history, never-created ids with the live ids planted around the multiples of 500 oldest first, alone or with group / status filters). evaluations = observations judged (Exists + Search + List + parsed cosmos Search and List query texts); distinct = distinct "
              "(history, observations) by hash; non-trivial = at least 2 live plans at the end and more than 10 steps",
         samples=[dict(id=c["id"], backend=c["kind"], dist={k: v for k, v in c["dist"].items() if k != "hist"},
                       first_steps=c["observed"][:6], last_steps=c["observed"][-3:]) for c in live[3:6]],
@@ -150,6 +158,11 @@ def run(ctx):
             exists=merge_hist(live, "exists:"),
             cosmos_exists_under_read_fault=merge_hist(live, "exists-fault:"),
             cosmos_stream_under_query_fault=merge_hist(live, "stream-fault:"),
+            streams_under_done_context=merge_hist(live, "ctx:"),
+            skipped_after_wedge=merge_hist(live, "skipped-after-wedge"),
+            bounds=dict(stream_idle_deadline_s=2, call_return_deadline_s=5, history_watchdog_s=90,
+                        note="a stream is NeverClosed when it delivers nothing and is not closed for stream_idle_deadline_s; a call that does not "
+                             "return within call_return_deadline_s is a hang (class 2) and the store counts as wedged"),
             step_kinds=merge_hist(live, "step:"),
             final_statuses=fw.histogram(s for c in live for s, k in c["dist"]["statuses"].items() for _ in range(k)),
         ),
@@ -160,7 +173,8 @@ def run(ctx):
         "UpdatePlan is only called with a plan object that agrees with the stored plan in id, group, name, description (what the engine does)",
         "cosmosdb Search/List through the package fake are only compared as sets and only for id filters / limit <= 0: the fake ignores the "
         "query text, ORDER BY and (by a type assertion on int) panics on @limit; the text ties (hooks VerifSearchQuery, VerifListQuery) cover what the real service would be sent",
-        "NeverClosed is observed with a 2 s idle deadline",
+        "NeverClosed is observed with a 2 s idle deadline, a hung call with a 5 s deadline (harness constants, see distribution.bounds); "
+        "observations under contexts cancelled during the call depend on the schedule (they are left out of the history hash); the verdict does not",
         "sqlite theorems about result contents assume the State times written are representable (zero time or int64 nanoseconds); "
         "the sqlite specification has the codec's documented loss: instants at or before the Unix epoch read back as the zero time, "
         "a submit time before the epoch is stored as the epoch",
